@@ -1,5 +1,6 @@
 import Vata.Parse
 import Driver.NfaHist
+import Vata.Proofs.LtsSim
 /-!
 # vdriver – the model side of the correspondence check
 
@@ -268,6 +269,46 @@ def checkRename (args res : List String) : Except String (Findings × String) :=
     if !(← equivE A R) then f := f ++ ["violation injective-renaming-changes-language"]
   pure (f, s!"inj={bchar inj}")
 
+def checkLts (args res : List String) : Except String (Findings × String) := do
+  let n ← getE (args[0]? >>= String.toNat?) "bad n"
+  let edges ← getE (args[1]? >>= (fun s => if s == "-" then some [] else (splitC s ';').mapM (fun e =>
+    match e.splitOn "," with
+    | [a, b, c] => do pure ((← a.toNat?), (← b.toNat?), (← c.toNat?))
+    | _ => none))) "bad edges"
+  let outSize ← getE (args[4]? >>= String.toNat?) "bad output size"
+  let overload ← getE (args[5]? >>= String.toNat?) "bad overload"
+  let L : Vata.L.LTS := ⟨n, edges⟩
+  if !(edges.all (fun e => e.1 < n && e.2.2 < n)) then throw "precondition: edge outside 0..n-1"
+  -- initial relation
+  let I ← (if overload == 0 then do
+      let blocks ← getE (args[2]? >>= (fun s => (splitC s '/').mapM (fun b => natList? b ','))) "bad partition"
+      let brel ← getE (args[3]? >>= parseRel?) "bad block relation"
+      -- preconditions: blocks non-empty, a partition of 0..n-1, relation reflexive and transitive on the blocks
+      let all := blocks.flatMap id
+      if blocks.any (·.isEmpty) || all.length != n || !((List.range n).all (fun q => all.contains q)) then
+        throw "precondition: not a partition of the states into non-empty blocks"
+      let nb := blocks.length
+      if !((List.range nb).all (fun i => brel.contains (i, i))) then throw "precondition: block relation not reflexive"
+      if !(brel.all (fun p => brel.all (fun p' => p.2 != p'.1 || brel.contains (p.1, p'.2)))) then
+        throw "precondition: block relation not transitive"
+      let blockOf (q : Nat) : Nat := (blocks.findIdx? (fun b => b.contains q)).getD 0
+      pure ((Vata.L.fullRel n).filter (fun p => brel.contains (blockOf p.1, blockOf p.2)))
+    else pure (Vata.L.fullRel n) : Except String Vata.L.Rel)
+  let k := if overload == 2 then n else outSize
+  let ref := Vata.L.ltsSimOut L I k
+  if !Vata.L.isLtsSimB L (Vata.L.ltsSimRef L I) then throw "internal: reference is not a simulation"
+  let size ← getE ((kv res "size") >>= String.toNat?) "missing size"
+  let rel ← getE ((kv res "rel") >>= parseRel?) "bad rel"
+  let mut f : Findings := []
+  let expSize := if k == 0 then 0 else k
+  if size != expSize then f := f ++ [s!"violation lts-result-size={size} requested={k}"]
+  if !relEq rel ref then
+    let extra := rel.filter (fun p => !ref.contains p)
+    let missing := ref.filter (fun p => !rel.contains p)
+    f := f ++ [s!"violation lts-simulation differs from the greatest simulation inside the initial preorder: extra={extra} missing={missing}"]
+  let between := ref.length > k && ref.length < k * k
+  pure (f, s!"overload={overload} between={bchar between} big={bchar (n > 12)}")
+
 def dispatch (kind : String) (args res : List String) : Except String (Findings × String) :=
   match kind with
   | "incl" => checkIncl args res
@@ -285,6 +326,7 @@ def dispatch (kind : String) (args res : List String) : Except String (Findings 
   | "compl" => checkCompl args res
   | "rename" => checkRename args res
   | "nfah" => NfaHist.check args res
+  | "lts" => checkLts args res
   | _ => throw s!"unknown kind {kind}"
 
 def toks (line : String) : List String := (line.trimAscii.toString.splitOn " ").filter (· != "")
